@@ -702,7 +702,7 @@ def judge_sched(chk: Check, cases: T.List[T.Dict[str, T.Any]], label: str) -> No
         with scratch('c12-j-') as d:
             tf = d / 'cases.json'
             tf.write_text(json.dumps([{k: c[k] for k in TRACE_FIELDS} for c in part]))
-            res = run_tlc(FAM, 'TraceTestSched', env={'TRACE_FILE': str(tf), 'DIAG': '0'}, timeout=3000, heap='8g')
+            res = run_tlc(FAM, 'TraceTestSched', env={'TRACE_FILE': str(tf), 'DIAG': '0'}, timeout=3000, heap='4g')
             if not res.clean:
                 raise MachineryError('TraceTestSched did not complete cleanly:\n' + res.stdout[-2000:])
             m = re.search(r'Finished computing initial states: (\d+) distinct state', res.stdout)
@@ -718,7 +718,7 @@ def judge_sched(chk: Check, cases: T.List[T.Dict[str, T.Any]], label: str) -> No
             if rejected:
                 # single worker, with progress lines: final word on acceptance + the longest matched prefix
                 tf.write_text(json.dumps([{k: c[k] for k in TRACE_FIELDS} for c in rejected]))
-                res1 = run_tlc(FAM, 'TraceTestSched', env={'TRACE_FILE': str(tf), 'DIAG': '1'}, timeout=3000, workers=1, heap='8g')
+                res1 = run_tlc(FAM, 'TraceTestSched', env={'TRACE_FILE': str(tf), 'DIAG': '1'}, timeout=3000, workers=1, heap='4g')
                 if not res1.clean:
                     raise MachineryError('TraceTestSched (diagnosis) did not complete cleanly:\n' + res1.stdout[-2000:])
                 best: T.Dict[str, T.Tuple[int, int]] = {}
@@ -846,7 +846,7 @@ def model_check(chk: Check, quick: bool) -> None:
         ]
     for name, shapes, kinds, flaky in runs:
         res = run_tlc(FAM, 'TestSched_MC', cfg_text=MC_CFG % {'shapes': shapes, 'kinds': kinds, 'flaky': flaky},
-                      timeout=3000, allow_violation=False, heap='10g', coverage=not quick and name == '31+22+32')
+                      timeout=3000, allow_violation=False, heap='4g', coverage=not quick and name == '31+22+32')
         chk.add_tlc(f'TestSched_MC[{name}]', res)
         if not quick and name == '31+22+32':
             cov = res.coverage()
